@@ -435,3 +435,4 @@ def run_c20(v, w, tier, replay):
         "one concrete value per option value class (one port, one address, two peers, two urls, ...)",
         "the antnode binary is built from the same tree with default features and cfg maidsafe_safe_network_verif (hook H7)",
     ]
+SETUP = [build_antnode]
